@@ -117,6 +117,11 @@ PATHSCAN = -1000000
 PATHCHUNK = 6
 
 
+def _cut_by_wall_clock(rec):
+    reason = str(rec.get("reason") or (rec.get("kf") or {}).get("reason") or "").lower()
+    return (not reason) or ("timeout" in reason) or ("cancel" in reason) or ("interrupt" in reason)
+
+
 def _solve_one(job):
     fi, oi, rlimit, both = job
     from pyvc.verify import check_obligation, check_cover, run_cvc5, check_paths
@@ -136,8 +141,8 @@ def _solve_one(job):
     rec = {"oid": ob.oid, "kind": ob.kind, "label": ob.label, "note": ob.note, "where": ob.where, "kf": None}
     # first attempt: 45 s wall per pass (obligations of the unchanged tree take seconds); the retry gets 120 s
     # the last attempt (4x budget, marked by the odd limit) is cut by the deterministic resource limit only (wall clock
-    # 30 min): its verdict does not depend on how many other checks share the cores
-    tmo = 1800000 if rlimit == BASE_RLIMIT[0] * 4 + 1 else (120000 if rlimit > BASE_RLIMIT[0] else 45000)
+    # 150 s per pass): its verdict does not depend on how many other checks share the cores
+    tmo = 150000 if rlimit == BASE_RLIMIT[0] * 4 + 1 else (120000 if rlimit > BASE_RLIMIT[0] else 45000)
     if ents:
         check_obligation(vc, ob2, rlimit=rlimit, timeout_ms=tmo)
         rec.update(status="known-finding", backend=None, time=0.0, model=None)
@@ -342,6 +347,11 @@ def run_check(prop, args, seed, t0):
         # process before it is reported: verdicts must not flip with machine load
         retry = [(fi, oi, rl * 4, both) for (fi, oi, rl, both), (_f, _o, rec) in zip(sjobs, sres)
                  if oi >= 0 and (rec.get("status") == "unknown" or (rec.get("kf") or {}).get("status") == "unknown")]
+        # PYVC_FAST_UNKNOWN=1 (sweeps over seeded changes only, never a registered command): report an `unknown` of the
+        # first attempt as it is; the retries below can only turn a reported violation into a pass
+        fast_unknown = bool(os.environ.get("PYVC_FAST_UNKNOWN"))
+        if fast_unknown:
+            retry = []
         if retry:
             for (fi, oi, _rl, _b) in retry:
                 say("note: retrying %s with a larger budget (first answer: unknown)" % _PREP[fi][3][oi][0].oid)
@@ -356,15 +366,18 @@ def run_check(prop, args, seed, t0):
         last = [(fi, oi, BASE_RLIMIT[0] * 4 + 1, both) for (fi, oi, rec), (_fi, _oi, _rl, both) in
                 [(x, y) for x, y in zip(sres, sjobs)]
                 if oi >= 0 and (rec.get("status") == "unknown" or (rec.get("kf") or {}).get("status") == "unknown")
-                and _PREP[fi][3][oi][0].oid in baseline]
+                and _PREP[fi][3][oi][0].oid in baseline
+                # only when the retry was cut by the wall clock: an answer cut by the deterministic resource limit comes
+                # out the same again
+                and _cut_by_wall_clock(rec)]
         # (pointless when a violation is certain anyway: a refuted obligation or a failing bounded case)
         certain = any(r2.get("status") == "refuted" for (_f, o2, r2) in sres if o2 >= 0) or \
             any((b or {}).get("failures") for b in bresults if isinstance(b, dict)) or \
             any(c.get("failures") for b in bresults if isinstance(b, dict) for c in b.get("checks", []))
-        if last and not certain:
+        if last and not certain and not fast_unknown:
             import multiprocessing as _mp
             for job in last:
-                say("note: last attempt for %s (still unknown; 4x resource budget, no wall-clock limit, alone)" % _PREP[job[0]][3][job[1]][0].oid)
+                say("note: last attempt for %s (still unknown; 4x resource budget, 150 s per pass, alone)" % _PREP[job[0]][3][job[1]][0].oid)
                 with _mp.get_context("fork").Pool(1) as solo:
                     fi, oi, rec = solo.apply(_solve_one, (job,))
                 sres = [(f2, o2, dict(rec, retried=True)) if (f2, o2) == (fi, oi) else (f2, o2, r2) for (f2, o2, r2) in sres]
